@@ -28,7 +28,7 @@ pub fn run(args: &Args) -> Out {
             if let Some((s, c, _)) = replay {
                 invalid_case(s, c, &mut out);
             } else {
-                for idx in 0..args.n(2_016, 40_320) {
+                for idx in 0..args.n(20_160, 40_320) {
                     if args.mine(idx) {
                         invalid_case(args.seed, idx, &mut out);
                     }
@@ -43,7 +43,7 @@ pub fn run(args: &Args) -> Out {
             if let Some((s, c, t)) = replay {
                 fault_case(s, c, t, &mut out);
             } else {
-                for idx in 0..args.n(6_400, 128_000) {
+                for idx in 0..args.n(48_000, 256_000) {
                     if args.mine(idx) {
                         fault_case(args.seed, idx, args.thorough, &mut out);
                     }
